@@ -1000,7 +1000,8 @@ func (P) Generate(g *core.Gen) {
 // model, replayed with the map-order choices read back from the
 // implementation's own observations, reproduces those observations op by op
 // and the first op at which the implementation's tip is not a most-work valid
-// chain is an InvalidateBlock (F-C02-a) or a ReconsiderBlock (F-C02-b).
+// chain is an InvalidateBlock (F-C02-a), a ReconsiderBlock (F-C02-b) or the
+// delivery of a block whose header-only node was manually invalidated (F-C02-e).
 func (P) ClassifyMismatch(line, goOut, leanOut string) string {
 	f := strings.Fields(line)
 	if len(f) != 4 || f[1] != "run" || strings.ContainsAny(goOut, " \t") || goOut == "" {
@@ -1019,6 +1020,8 @@ func (P) ClassifyMismatch(line, goOut, leanOut string) string {
 		return "F-C02-a"
 	case strings.HasPrefix(out[0], "F-C02-b@"):
 		return "F-C02-b"
+	case strings.HasPrefix(out[0], "F-C02-e@"):
+		return "F-C02-e"
 	}
 	return ""
 }
